@@ -139,7 +139,7 @@ Proof.
       destruct o2; try exact C.
       destruct (s_seq (seval defs n (0%N :: bl) tg) res VNil st2) eqn:E3. eapply s_progn_clean; eauto.
     + eapply s_progn_clean; eauto.
-    + destruct (nth_error defs i) as [body|]; [| inv H; exact I].
+    + destruct (nth_error defs i) as [[dc body]|]; [| inv H; exact I].
       match type of H with catch ?t ?r = _ => pose proof (catch_clean t r) as X; rewrite H in X; apply X end.
       destruct (s_seq (seval defs n [fn_tag i] []) body VNil st) eqn:E. eapply s_progn_clean; eauto.
     + destruct (seval defs n bl tg f st) as [o1 st1] eqn:E. pose proof (IH _ _ _ _ _ _ E) as C.
@@ -443,10 +443,10 @@ Proof.
   cbn in H |- *. apply B in H. apply H.
 Qed.
 
-Lemma gd_defs_nth : forall defs k i body, gd_defs k defs = true -> nth_error defs i = Some body ->
+Lemma gd_defs_nth : forall defs k i dc body, gd_defs k defs = true -> nth_error defs i = Some (dc, body) ->
   g_all gd [fn_tag (k + i)] [] body = true.
 Proof.
-  induction defs as [|b defs IH]; intros k i body H E; [destruct i; discriminate|].
+  induction defs as [|[dc0 b] defs IH]; intros k i dc body H E; [destruct i; discriminate|].
   cbn in H. apply andb_true_iff in H. destruct H as [H1 H2]. destruct i; cbn in E.
   - inv E. rewrite Nat.add_0_r. exact H1.
   - replace (k + S i) with (S k + i) by lia. eapply IH; eauto.
@@ -725,14 +725,14 @@ Proof.
       eapply (progn_rel (meval defs n ((true, LAMBDA) :: sc) tb) _ (CL bl tg) R G); eauto.
       intros f Gf. eapply IH; eauto using ctx_lam.
     + (* CallU *)
-      destruct (nth_error defs i) as [body|] eqn:NE; [| inv HS; fin].
-      pose proof (gd_defs_nth _ 0 _ _ GD NE) as GB. cbn in GB.
+      destruct (nth_error defs i) as [[dc body]|] eqn:NE; [| inv HS; fin].
+      pose proof (gd_defs_nth _ 0 _ _ _ GD NE) as GB. cbn in GB.
       destruct (s_seq (seval defs n [fn_tag i] []) body VNil st) as [o1 st1] eqn:E.
       assert (NO1 : o1 <> OOF) by (intro; subst; cbn in HS; inv HS; congruence).
-      assert (CXF : ctx_ok [fn_tag i] [] ((true, fn_tag i) :: sc) tb [fn_tag i] []).
+      assert (CXF : ctx_ok [fn_tag i] [] ((true, fn_tag i) :: dc ++ sc) tb [fn_tag i] []).
       { split; [| discriminate].
         intros t Ht. cbn in Ht |- *. rewrite orb_false_r in Ht. rewrite N.eqb_sym, Ht. split; reflexivity. }
-      destruct (progn_rel (meval defs n ((true, fn_tag i) :: sc) tb) _ (CL [fn_tag i] []) [fn_tag i] [])
+      destruct (progn_rel (meval defs n ((true, fn_tag i) :: dc ++ sc) tb) _ (CL [fn_tag i] []) [fn_tag i] [])
         with (fs := body) (st := st) (o := o1) (st' := st1) as (r0 & EM & RL & EX);
         [intros f Gf; eapply IH; eauto | exact GB | exact E | exact NO1 |].
       assert (C1 : oclean o1) by (eapply s_progn_clean; eauto).
